@@ -14,9 +14,9 @@ import time
 from . import tlc
 
 VERIF = tlc.VERIF
-WORK = os.path.join(VERIF, '.work')
-REPLAYS = os.path.join(VERIF, 'replays')
-EVIDENCE = os.path.join(VERIF, 'evidence')
+WORK = os.environ.get('VERIF_WORKDIR') or os.path.join(VERIF, '.work')      # scratch (per check id); override for parallel development runs
+REPLAYS = os.environ.get('VERIF_REPLAY_DIR') or os.path.join(VERIF, 'replays')
+EVIDENCE = os.environ.get('VERIF_EVIDENCE_DIR') or os.path.join(VERIF, 'evidence')   # override: runs against a patched tree (bin/try_seed)
 KNOWN = os.path.join(VERIF, 'KNOWN_FINDINGS.txt')
 
 
